@@ -96,7 +96,16 @@ func (w *worldA) wireSweep(nd *simNode, k int) {
 			d = sha([]byte(fmt.Sprintf("absent-%d", rng.IntN(1<<30))))
 		}
 		q := uint64(rng.IntN(int(n)))
+		if rng.IntN(6) == 0 {
+			// a version the log has not reached yet: the node answers for its
+			// current version; that answer is genuine too and must survive the wire
+			q = cv + []uint64{1, 2, 7, 1 << 20, 1<<63 - 1 - cv}[rng.IntN(5)]
+			r.Count("probe.query_version_beyond_current")
+		}
 		mp, err := nd.rn.QueryDigestMembershipConsistency(d, q)
+		if q > cv {
+			q = cv // the snapshots such an answer can be judged against are the current ones
+		}
 		if err == nil && mp != nil {
 			mr := protocol.ToMembershipResult(w.events[string(d)], mp)
 			b, err := json.Marshal(mr)
